@@ -9,6 +9,7 @@ From Coq Require Import QArith Qabs ZArith Bool List Permutation.
 Import ListNotations.
 From CR Require Import Base.QMod Model.Interval Model.Transform Model.Shapes Model.Scene Proofs.Shapes
   Model.Occupancy Proofs.Occupancy.
+From CR Require Import Base.PyRes Model.DispatchCfg Gen.Src_dispatch Proofs.SrcDispatch.
 
 (* ================================================================== (i) dispatch, for every integer t *)
 Section Dispatch.
@@ -295,6 +296,54 @@ Theorem C04_enclosure_nonvacuous :
     dev_ok (box_len ex_box) (box_wid ex_box) ex_orc (4 # 5) (- (3 # 5)) /\ ~ (4 # 5) == 1.
 Proof. exact enclosure_nonvacuous. Qed.
 
+(* ================================================================== the model is the code (translator tie)
+   Gen/Src_dispatch.v is regenerated on every run from scenario/trajectory.py, prediction/prediction.py and
+   scenario/obstacle.py by symbolic execution (harness/vlib/py2coq.py + harness/props/c04_src.py), one definition per
+   translated method and static configuration.  Each equals the dispatch function of Model/Occupancy.v, which the
+   theorems of part (i) are about, on the embedded object (Proofs/SrcDispatch.v); Trajectory.state_at_time_step never
+   raises IndexError.  [dyn_shape_ok] / [static_shape_ok] / [occs_ok] say that the cached attributes the translation
+   reads as fields (_initial_occupancy_shape, TrajectoryPrediction.occupancy_set) hold what their producers compute. *)
+Section ModelIsSource.
+  Open Scope Z_scope.
+  Variables S R : Type.
+  Variable tstep : S -> Z.
+  Variable place : S -> R.
+  Notation occ_at := (occupancy_at_time S R tstep place).
+  Notation st_at := (state_at_time S R tstep).
+  Notation pred_at := (pred_occupancy_at S R tstep place).
+  Notation shape_ok := (dyn_shape_ok S R place).
+  Notation cache_ok := (occs_ok S R tstep place).
+  Notation dyn := (emb_dyn S R).
+  Notation e_traj := (emb_traj S R).
+  Notation e_step := (emb_set_step S R).
+  Notation e_itv := (emb_set_itv S R).
+  Theorem C04_model_is_source :
+    (forall tr t, src_traj_state_at S tr t = POk (state_at_time_step S tr t))
+    /\ (forall p t, src_pred_occ_step R p t = pred_at (e_step p) t)
+    /\ (forall p t, src_pred_occ_itv R p t = pred_at (e_itv p) t)
+    /\ (forall p t, cache_ok p -> src_pred_occ_traj S R p t = pred_at (e_traj p) t)
+    /\ (forall i ty o t, static_shape_ok S R place o -> Some (src_static_occ S R o t) = occ_at (emb_static S R i ty o) t)
+    /\ (forall i ty o t, Some (src_static_state S R o t) = st_at (emb_static S R i ty o) t)
+    /\ (forall i ty o t, shape_ok o -> src_dyn_occ_none S R tstep o t = occ_at (dyn i ty (fun _ => None) o) t)
+    /\ (forall i ty o t, src_dyn_state_none S R tstep o t = st_at (dyn i ty (fun _ => None) o) t)
+    /\ (forall i ty o t, shape_ok o -> cache_ok (do_pred o) ->
+          src_dyn_occ_traj S R tstep o t = occ_at (dyn i ty (fun p => Some (e_traj p)) o) t)
+    /\ (forall i ty o t, src_dyn_state_traj S R tstep o t = POk (st_at (dyn i ty (fun p => Some (e_traj p)) o) t))
+    /\ (forall i ty o t, shape_ok o ->
+          src_dyn_occ_set_step S R tstep o t = occ_at (dyn i ty (fun p => Some (e_step p)) o) t)
+    /\ (forall i ty o t, src_dyn_state_set_step S R tstep o t = st_at (dyn i ty (fun p => Some (e_step p)) o) t)
+    /\ (forall i ty o t, shape_ok o ->
+          src_dyn_occ_set_itv S R tstep o t = occ_at (dyn i ty (fun p => Some (e_itv p)) o) t)
+    /\ (forall i ty o t, src_dyn_state_set_itv S R tstep o t = st_at (dyn i ty (fun p => Some (e_itv p)) o) t).
+  Proof. exact (model_dispatch_is_source S R tstep place). Qed.
+End ModelIsSource.
+(* the cache hypothesis is satisfiable: a trajectory prediction whose cached set is what _create_occupancy_set computes *)
+Example C04_model_is_source_nonvacuous :
+  occs_ok Z Z (fun s => s) (fun s => 10 * s)%Z
+    {| tp_traj := {| t_init := 3; t_states := [3; 4]%Z |}; tp_occs := [(3, 30); (4, 40)]%Z |}.
+Proof. exact occs_ok_example. Qed.
+
+
 Print Assumptions C04_occupancy_is_shape_at_state.
 Print Assumptions C04_dynamic_state_dispatch.
 Print Assumptions C04_dynamic_state_has_time_t.
@@ -342,3 +391,5 @@ Print Assumptions C04_dev_len_saturated.
 Print Assumptions C04_dev_len_unsaturated.
 Print Assumptions C04_dispatch_nonvacuous.
 Print Assumptions C04_enclosure_nonvacuous.
+Print Assumptions C04_model_is_source.
+Print Assumptions C04_model_is_source_nonvacuous.
